@@ -499,7 +499,8 @@ def h_reduce(sign_rule=None, positional_axis=1, positional_keepdims=None, dtype=
         elif sign_rule == 'max':
             sign = x.sign if x.sign in ('POS', 'NONNEG') else None
         out = argval(pos, kw, None, 'out')
-        return AV(kind=TOP if shape is None else (SCALAR if (shape.rank == 0) else ARR), deps=deps_of(x, *[v for k, v in kw.items() if k in ('weights', 'b', 'where')]),
+        axv = argval(pos, kw, positional_axis, 'axis')
+        return AV(kind=TOP if shape is None else (SCALAR if (shape.rank == 0) else ARR), deps=deps_of(x, axv, *[v for k, v in kw.items() if k in ('weights', 'b', 'where')]),
                   alias=out.alias if out is not None else frozenset(), shape=shape, sign=sign,
                   norm='RAW' if tracked(x) else None, dtype=dtype or ('real' if real_dtype(x) else x.dtype),
                   meta=('reduce', name, axis, kd, x))
